@@ -27,7 +27,10 @@ RULE = ("catalogue (about 40 malformed strings: stray/unbalanced brackets, empty
         "with a chosen loopback address (tls/https/quic/doq/h3 with hostname URL host and/or hostname dial_addr, with and without port: the "
         "connection must arrive at <answered address>:<port written or scheme default>, the server must have been asked for exactly the host "
         "written, IP literals must not be resolved; tcp/udp with a hostname must still be refused); Opt.Bootstrap strings of every form go to "
-        "NewUpstream (created or refused). A case is non-trivial when an IPv6 form, a dial_addr or an omitted port "
+        "NewUpstream (created or refused); and about 20 plain udp / no-scheme addresses (url with/without port x dial_addr with/without "
+        "port, other host / other port / same port) run against loopback servers that answer every UDP query truncated (TC=1) with TCP "
+        "listeners on every candidate address x port: the TCP retry must arrive exactly where the UDP datagram went, the configured "
+        "address, and be answered. A case is non-trivial when an IPv6 form, a dial_addr or an omitted port "
         "is involved; distinct = distinct Gallina literal")
 ASSUMPTIONS = [
     "net/url.Parse decides Scheme and Host as transcribed in Model.Addr.url_parse for strings over letters, digits and . - _ + : [ ] / "
@@ -49,7 +52,8 @@ LEVEL_TEXT = ("Theorems in coq/Properties/C18.v, for ALL strings of the grammar 
               "NewUpstream's model dials exactly the host of dial_addr if given else of the URL, on the port written next to it "
               "else the scheme default, with the URL host as TLS name; refusals (non-IP where an IP is needed, port text that is "
               "not a 16 bit decimal, unknown scheme, bare IPv6 with a non-decimal last group) happen at creation; with Opt.Bootstrap the "
-              "host handed to the resolver and the port are the same ones (c18_bootstrap_keeps_port); and for ALL "
+              "host handed to the resolver and the port are the same ones (c18_bootstrap_keeps_port); both dial sites of the plain udp "
+              "upstream (UDP socket, TCP retry after a truncated reply) use that one target (c18_udp_both_dial_sites); and for ALL "
               "strings whatsoever an accepted (host, port) is literally what the string says (reject_or_exact). The model is run "
               "inside Coq on every case the Go driver observed on the real helpers, on NewUpstream and on the network.")
 LEVEL_NOTE = ("Trusted: Coq kernel + vm_compute; hand-written model tied to the code by the differential run; transcriptions of "
